@@ -1,5 +1,6 @@
 // govc:pkg functions
 // govc:bound |text| <= 5, |pattern| <= 5 over the alphabet {'%', '_', 'a', 'b'} (exhaustive: 1365 x 1365 pairs)
+// govc:also C06 C20
 // Bounded stand-in (NOT a proof): the real matcher GetExprBridge().matchesLikePattern against the recursive definition of LIKE from the
 // property statement.
 package functions
